@@ -1,10 +1,15 @@
 /-
-  C19 — URL parsing.  Property theorems only; lemmas are in Proofs/{Utf8,UrlParse,UrlCanon}.lean.
+  C19 — URL parsing.  Property theorems only; lemmas are in
+  Proofs/{Utf8,UrlParse,UrlCanon,UrlDot,UrlRound,UrlBufSafe}.lean.
+  `Nng.UrlBuf` is the in-place buffer model of the same parser (every access recorded).
   `Nng.Url` is the executable model of url.c (tied to the C code by the correspondence check),
   `Nng.UrlSpec` is the specification (Unicode Table 3-7, canonical form, scheme table).
 -/
 import NngModel.Proofs.UrlParse
 import NngModel.Proofs.UrlCanon
+import NngModel.Proofs.UrlDot
+import NngModel.Proofs.UrlRound
+import NngModel.Proofs.UrlBufSafe
 namespace Nng.C19
 open Nng Nng.Url Nng.UrlSpec Nng.UrlProofs
 
@@ -58,10 +63,10 @@ theorem accepted_components (raw : Bytes) (hz : (0 : UInt8) ∉ raw) (u : Url) (
     have := splitPQF_join c
     rw [hsplit] at this; exact this
 
-/-- T5 (part of (d), proved). After the escape pass every '%' starts an upper-case escape of a
+/-- T5 ((d), per pass). After the escape pass every '%' starts an upper-case escape of a
     byte that is neither unreserved nor ≥ 0x80; the slash pass keeps that and leaves no "//" in
     the path part; both passes are idempotent. -/
-theorem canonical_partial (s r : Bytes) (h : canonify s = some r) :
+theorem canonical_per_pass (s r : Bytes) (h : canonify s = some r) :
     ∃ a, pass1 s = some a ∧ escapesCanonical a = true ∧ pass1 a = some a ∧
       escapesCanonical (pass2 false false a) = true ∧
       noDoubleSlash (pathPart (pass2 false false a)) = true ∧
@@ -72,8 +77,8 @@ theorem canonical_partial (s r : Bytes) (h : canonify s = some r) :
   exact ⟨a, ha, hesc, pass1_idem s a ha, pass2_escapes a.length a false false (Nat.le_refl _) hesc,
     pass2_noDoubleSlash a, pass2_idem a, hr, canonify_wellFormed s r h⟩
 
-/-- T6 (part of (d), proved). Every canonical, well-formed string is a fixed point of the
-    canonicaliser: all three passes leave it alone. -/
+/-- T6. Every canonical, well-formed string is a fixed point of the canonicaliser: all three
+    passes leave it alone. -/
 theorem canonical_is_fixed_point (r : Bytes) (hc : Canonical r) (hw : WellFormedUtf8 r) :
     canonify r = some r := by
   unfold canonify
@@ -81,18 +86,42 @@ theorem canonical_is_fixed_point (r : Bytes) (hc : Canonical r) (hw : WellFormed
   simp only
   rw [if_pos ((utf8Validate_iff r).2 hw)]
 
-/-- (d), full statement: the canonicaliser's output is canonical. -/
-def canonical_statement : Prop := ∀ s r, canonify s = some r → Canonical r
-/-- (d), full statement: the canonicaliser is idempotent. -/
-def idempotent_statement : Prop := ∀ s r, canonify s = some r → canonify r = some r
+/-- T7 ((d), formerly `canonical_statement`). Whatever the canonicaliser returns is canonical:
+    every '%' starts an upper-case escape of a byte that had to stay escaped, and the part before
+    the first '?'/'#' has no "//" and no "." or ".." segment.  The dot-segment pass — `dst--`
+    scans, `src += 2/3` skips — is covered by the loop invariant `Inv3` (Proofs/UrlDot.lean). -/
+theorem canonical_output (s r : Bytes) (h : canonify s = some r) : Canonical r :=
+  canonify_canonical s r h
 
-/-- T7. Idempotence follows from canonical output (T6); what is *not* proved is
-    `canonical_statement` for the dot-segment pass: that `pass3` (with its in-place pops)
-    leaves no "." / ".." segment and keeps the guarantees of the first two passes.  That part is
-    checked on every run by the specification (`canon` operations and every accepted URL). -/
-theorem idempotent_of_canonical (h : canonical_statement) : idempotent_statement := by
-  intro s r hs
-  exact canonical_is_fixed_point r (h s r hs) (canonify_wellFormed s r hs)
+/-- T7b ((d), formerly `idempotent_statement`). The canonicaliser is idempotent: applied to its
+    own output it succeeds and changes nothing. -/
+theorem canonify_idempotent (s r : Bytes) (h : canonify s = some r) : canonify r = some r :=
+  canonical_is_fixed_point r (canonical_output s r h) (canonify_wellFormed s r h)
+
+/-- T7c. The same as an equation: `canonify (canonify p) = canonify p`, failure included. -/
+theorem canonify_canonify (p : Bytes) : (canonify p).bind canonify = canonify p := by
+  cases h : canonify p with
+  | none => rfl
+  | some r => exact canonify_idempotent p r h
+
+/-- T7d. Every accepted URL of an authority-form scheme is canonical: its
+    path ++ ?query ++ #fragment is `Canonical`, well-formed UTF-8, and the path is empty or
+    starts with '/' (so printing it after the authority cannot change where the authority ends). -/
+theorem accepted_canonical (raw : Bytes) (hz : (0 : UInt8) ∉ raw) (u : Url) (rv : Nat)
+    (h : parse raw = ⟨rv, some u⟩) (hs : specialSchemes.contains u.scheme = false) :
+    Canonical (u.path ++ optPart QM u.query ++ optPart HASH u.fragment) ∧
+    WellFormedUtf8 (u.path ++ optPart QM u.query ++ optPart HASH u.fragment) ∧
+    isSegEnd (u.path ++ optPart QM u.query ++ optPart HASH u.fragment) = true := by
+  obtain ⟨_, _, rest, _, _, hc⟩ := parse_ok raw hz u rv h
+  rcases hc with ⟨hsp, _⟩ | ⟨_, hf⟩
+  · rw [hs] at hsp; cases hsp
+  · obtain ⟨c, hc, hsplit⟩ := hf.canon
+    have hj := splitPQF_join c
+    rw [hsplit] at hj
+    simp only at hj
+    rw [hj]
+    exact ⟨canonical_output _ _ hc, canonify_wellFormed _ _ hc,
+      canonify_head _ _ hc (isSegEnd_dropWhile rest)⟩
 
 /-- T8. nng_url_clone: when the copy can be allocated the clone equals the original, whatever
     the length (inline or heap buffer). -/
@@ -112,18 +141,9 @@ theorem heap_size_covers (raw : Bytes) (hz : (0 : UInt8) ∉ raw) (u : Url) (rv 
   · rw [if_pos hl] at hb; exact Or.inr ⟨hb, hl⟩
   · rw [if_neg hl] at hb; exact Or.inl ⟨hb, by omega⟩
 
-/-- (f), full statement: the printed URL parses to the same scheme, host, port, path, query
-    and fragment. -/
-def roundtrip_statement : Prop :=
-  ∀ raw u, (0 : UInt8) ∉ raw → parse raw = ⟨0, some u⟩ →
-    ∃ u', parse (sprintf u) = ⟨0, some u'⟩ ∧ u'.scheme = u.scheme ∧ u'.hostname = u.hostname ∧
-      u'.port = u.port ∧ u'.path = u.path ∧ u'.query = u.query ∧ u'.fragment = u.fragment
-
 /-- T9 ((f) for host-less schemes). For ipc, unix, abstract, inproc and socket URLs
-    nng_url_sprintf reproduces the input byte for byte, so parsing it again gives the same URL.
-    Not proved: the authority-form schemes (needs `canonical_statement` and host/port
-    re-parsing); checked on every accepted URL of every run. -/
-theorem roundtrip_partial (raw : Bytes) (hz : (0 : UInt8) ∉ raw) (u : Url) (rv : Nat)
+    nng_url_sprintf reproduces the input byte for byte, so parsing it again gives the same URL. -/
+theorem roundtrip_hostless (raw : Bytes) (hz : (0 : UInt8) ∉ raw) (u : Url) (rv : Nat)
     (h : parse raw = ⟨rv, some u⟩) (hs : specialSchemes.contains u.scheme = true) :
     sprintf u = raw ∧ parse (sprintf u) = ⟨0, some u⟩ := by
   obtain ⟨h0, _, rest, hr, _, hc⟩ := parse_ok raw hz u rv h
@@ -135,6 +155,65 @@ theorem roundtrip_partial (raw : Bytes) (hz : (0 : UInt8) ∉ raw) (u : Url) (rv
     · rw [hs] at hsp; cases hsp
   subst h0
   exact ⟨hspr, hspr ▸ h⟩
+
+/-- T9b ((f) for the authority-form schemes: tcp, tls+tcp, http(s), ws(s), udp, …).  What
+    nng_url_sprintf prints for an accepted URL — host in brackets exactly when it contains ':',
+    ":port" unless the port is non-zero and the scheme's default (a zero port is printed as ":0"),
+    then path, "?query", "#fragment" — is accepted again and gives the *same* URL apart from the
+    user info, which is not printed, and the buffer size.  No side condition is needed: the
+    accepted host is lower case, has no '@', '/', '?', '#', never starts with '[' and has no
+    '[' / ']' when it has a ':' (`HostOk`); the accepted path is empty or starts with '/'
+    (`accepted_canonical`); the canonical components are a fixed point of the canonicaliser. -/
+theorem roundtrip_authority_exact (raw : Bytes) (hz : (0 : UInt8) ∉ raw) (u : Url) (rv : Nat)
+    (h : parse raw = ⟨rv, some u⟩) (hs : specialSchemes.contains u.scheme = false) :
+    ∃ b, parse (sprintf u) = ⟨0, some { u with userinfo := none, bufsz := b }⟩ :=
+  roundtrip_authority raw hz u rv h hs
+
+/-- T9c ((f), formerly `roundtrip_statement`). For every accepted URL of every scheme the printed
+    URL parses to the same scheme, host, port, path, query and fragment. -/
+theorem roundtrip (raw : Bytes) (u : Url) (hz : (0 : UInt8) ∉ raw) (h : parse raw = ⟨0, some u⟩) :
+    ∃ u', parse (sprintf u) = ⟨0, some u'⟩ ∧ u'.scheme = u.scheme ∧ u'.hostname = u.hostname ∧
+      u'.port = u.port ∧ u'.path = u.path ∧ u'.query = u.query ∧ u'.fragment = u.fragment := by
+  cases hs : specialSchemes.contains u.scheme with
+  | true => exact ⟨u, (roundtrip_hostless raw hz u 0 h hs).2, rfl, rfl, rfl, rfl, rfl, rfl⟩
+  | false =>
+    obtain ⟨b, hb⟩ := roundtrip_authority raw hz u 0 h hs
+    exact ⟨_, hb, rfl, rfl, rfl, rfl, rfl, rfl⟩
+
+/-- T10 ("never reads out of bounds").  The in-place model of nni_url_parse_inline_inner
+    (`Model/UrlBuf.lean`: the host `memmove`, the NUL bytes written over '@' ':' ']' '?' '#', the
+    three canonicaliser passes with `src`/`dst`, the `dst--` scan, strlen/strchr/strtol reads, the
+    caller reading the fields) never reads or writes outside its buffer and no loop runs past the
+    buffer — for every input `raw` and every content `pad` of the allocation behind the copied
+    string.  The buffer is `strlen("://…") + 1` bytes when `pad = []` (the heap copy) and
+    `urlInlineSize` = 128 bytes for the inline `u_static` (`alloc_size`). -/
+theorem parse_in_bounds (raw pad : Bytes) : (UrlBuf.parseWith raw pad).mem.safe = true :=
+  UrlBufProofs.parseWith_safe raw pad
+
+/-- T10b. The allocation the model uses for `raw` is the one nng_url_parse makes: exactly the
+    tail plus terminator on the heap when it does not fit, the 128-byte inline buffer otherwise;
+    and parsing in it stays in bounds. -/
+theorem alloc_size (raw : Bytes) :
+    (raw.drop (schemeLen raw) ++ 0 :: UrlBuf.padFor raw).toArray.size =
+      (if (raw.drop (schemeLen raw)).length ≥ Generated.urlInlineSize
+        then (raw.drop (schemeLen raw)).length + 1 else Generated.urlInlineSize) ∧
+    (UrlBuf.parse raw).mem.safe = true := by
+  refine ⟨?_, UrlBufProofs.parseWith_safe raw _⟩
+  unfold UrlBuf.padFor
+  simp only
+  generalize raw.drop (schemeLen raw) = t
+  split
+  · simp
+  · rename_i h
+    simp only [List.size_toArray, List.length_append, List.length_cons, List.length_replicate]
+    omega
+
+/-- T10c. nni_url_canonify_uri run in place on any NUL-terminated string inside any buffer
+    stays inside that buffer. -/
+theorem canonify_in_bounds (s pad : Bytes) (fuel : Nat) (hf : s.length < fuel) :
+    (UrlBuf.canonifyAt fuel ⟨(s ++ 0 :: pad).toArray, true⟩ 0).1.safe = true :=
+  (UrlBufProofs.canonifyAt_inv (len := s.length) fuel _ 0 (UrlBufProofs.init_inv s pad)
+    (Nat.zero_le _) hf).1
 
 /-! ### non-vacuity: the hypotheses are satisfiable by concrete, non-trivial inputs -/
 
@@ -155,4 +234,31 @@ example : WellFormedUtf8 [0xe2, 0x82, 0xac] := (wellFormedUtf8b_iff _).1 (by dec
 example : ¬ WellFormedUtf8 [0xed, 0xa0, 0x80] := fun h => absurd ((wellFormedUtf8b_iff _).2 h) (by decide +kernel)
 example : (parse [0x68, 0x74, 0x3a, 0x2f, 0x2f, 0x78]).rv = Err.enotsup := by decide +kernel
 
+/-- `ws://U@[Fe80::1]:80/a/./b/../c?x#y` (default port written, IPv6 literal, user info) -/
+def ex4 : Bytes := [0x77, 0x73, 0x3a, 0x2f, 0x2f, 0x55, 0x40, 0x5b, 0x46, 0x65, 0x38, 0x30, 0x3a, 0x3a, 0x31, 0x5d, 0x3a, 0x38, 0x30, 0x2f, 0x61, 0x2f, 0x2e, 0x2f, 0x62, 0x2f, 0x2e, 0x2e, 0x2f, 0x63, 0x3f, 0x78, 0x23, 0x79]
+/-- `tcp://host` (no default port: printed as `tcp://host:0`) -/
+def ex5 : Bytes := [0x74, 0x63, 0x70, 0x3a, 0x2f, 0x2f, 0x68, 0x6f, 0x73, 0x74]
+/-- printed: `ws://[fe80::1]/a/c?x#y` -/
+example : (parse ex4).rv = 0 ∧ (0 : UInt8) ∉ ex4 ∧
+    ((parse ex4).url.map sprintf) = some [0x77, 0x73, 0x3a, 0x2f, 0x2f, 0x5b, 0x66, 0x65, 0x38, 0x30, 0x3a, 0x3a, 0x31, 0x5d, 0x2f, 0x61, 0x2f, 0x63, 0x3f, 0x78, 0x23, 0x79] ∧
+    ((parse ex4).url.map fun u => (parse (sprintf u)).url.map (·.port)) = some (some 80) ∧
+    ((parse ex4).url.map fun u => (parse (sprintf u)).url.map (·.hostname)) = some ((parse ex4).url.map (·.hostname)) := by
+  decide +kernel
+example : ((parse ex5).url.map sprintf) = some (ex5 ++ [0x3a, 0x30]) ∧
+    ((parse ex5).url.map fun u => (parse (sprintf u)).url.map (·.port)) = some (some 0) := by decide +kernel
+example : ((parse ex1).url.map fun u => (parse (sprintf u)).url.map (·.path)) = some ((parse ex1).url.map (·.path)) := by
+  decide +kernel
+
+end Nng.C19
+
+namespace Nng.C19
+open Nng Nng.Url
+/-- the `safe` flag is not vacuous: a scan over a buffer without terminator leaves it -/
+example : (UrlBuf.scan (fun _ => false) 10 ⟨#[1, 2, 3], true⟩ 0).1.safe = false := by decide
+/-- a write one past the end is flagged -/
+example : ((⟨#[1, 2, 3], true⟩ : UrlBuf.Mem).wr 3 0).safe = false := by decide
+/-- the buffer model and the functional model agree on the examples (and on every case of every
+    run, through the driver) -/
+example : (UrlBuf.parse ex1).url = (parse ex1).url ∧ (UrlBuf.parse ex4).url = (parse ex4).url ∧
+    (UrlBuf.parse ex2).url = (parse ex2).url ∧ (UrlBuf.parse ex1).mem.safe = true := by decide +kernel
 end Nng.C19
